@@ -940,6 +940,8 @@ class Run:
                 lst[::2] = lst[::2]
             else:
                 j = (i + a2) % len(lst)
+                if i != j:
+                    self.swapped = getattr(self, "swapped", set()) | {id(lst[i]), id(lst[j])}
                 lst[i], lst[j] = lst[j], lst[i]
             return "%d:=same(%d)" % (pa["label"], how)
         if a2 % 2 and len(pa["obj"].bs) >= 1:
@@ -1618,6 +1620,37 @@ class Run:
                 known_unloaded = any(self.in_session(h["obj"]) and not OS.loaded(h["obj"], "doc")[0] for h in self.entries(self.of("H")))
                 if not holders and not known_unloaded and o not in self.session.deleted:
                     exp["orphans"].append(o)
+        # the converse: a persistent object that a live parent holds in its loaded collection / reference right now, and that nobody
+        # asked to delete, is not an orphan whatever happened to it in a scope that has since been rolled back
+        exp["held"] = []
+        for pcls, an, ccls in ((("Q",), "rs", "R"), (("H",), "doc", "D"), (("G",), "opts", "O"), (("A", "A2"), "bs", "B")):
+            for pe in self.entries(lambda x: x["cls"] in pcls):
+                po = pe["obj"]
+                if not self.in_session(po) or po in self.session.deleted or OS.state_of(po) not in ("persistent", "pending"):
+                    continue
+                ok, v = OS.loaded(po, an)
+                if not ok:
+                    # not loaded: the one-directional ones can have no pending change, so the database says who the members are;
+                    # for the others the child's own loaded reference does
+                    ppk = OS.pk_of(po)
+                    if OS.state_of(po) != "persistent" or ppk is None:
+                        continue
+                    if an == "rs":
+                        pks = {k for k, row in self.prev_tables["r"].items() if row[self.U["tables"]["r"].index("q_id")] == ppk}
+                        v = [x["obj"] for x in self.entries(self.of("R")) if OS.pk_of(x["obj"]) in pks]
+                    elif an == "doc":
+                        row = self.prev_tables["h"].get(ppk)
+                        dpk = row[self.U["tables"]["h"].index("d_id")] if row else None
+                        v = [x["obj"] for x in self.entries(self.of("D")) if dpk is not None and OS.pk_of(x["obj"]) == dpk]
+                    else:
+                        back = {"opts": "g", "bs": "a"}[an]
+                        v = [x["obj"] for x in self.entries(self.of(ccls)) if OS.loaded(x["obj"], back) == (True, po)]
+                back = {"opts": "g", "bs": "a"}.get(an)
+                for c in OS.members(v):
+                    if c is not None and OS.state_of(c) == "persistent" and self.in_session(c) and c not in self.session.deleted:
+                        if back and OS.loaded(c, back)[0] and OS.loaded(c, back)[1] is not po:
+                            continue       # the two sides disagree: the orphan rule above, which reads the member's own side, governs
+                        exp["held"].append((c, ccls, pe["label"], an))
         return exp
 
     def op_flush(self, a1, a2):
@@ -3008,6 +3041,18 @@ class Run:
             if pk in now[tab]:
                 self.V("C39", "orphan_not_deleted", "%s #%s lost its delete-orphan parent, was not re-associated, and still has a row after flush "
                        "(universe %s)" % (type(o).__name__, pk, self.cfg["universe"]))
+        for c, ccls, plabel, an in exp.get("held", ()):
+            pk = OS.pk_of(c)
+            if OS.state_of(c) in ("deleted", "detached") and pk not in now[self.tab_of(ccls)]:
+                if id(c) in getattr(self, "swapped", ()):
+                    self.V("C39", "held_object_deleted", "after the list swap 'lst[i], lst[j] = lst[j], lst[i]' of two persistent members of the "
+                           "delete-orphan collection .%s the flush deleted one of them (%s): both sides and the attribute history say nothing changed" % (an, ccls))
+                    continue
+                self.V("C39", "held_object_deleted", "%s #%s was deleted by the flush although object %s held it in its loaded .%s, it was not "
+                       "marked for deletion and its parent was not deleted" % (ccls, pk, plabel, an))
+                if self.counters.get("op:sp_rollback"):
+                    self.V("C33", "held_object_deleted", "after a savepoint rollback, the flush deleted %s #%s which object %s holds in .%s "
+                           "and nobody marked for deletion" % (ccls, pk, plabel, an))
         if "delete-orphan" in self.U["cfg"]["bs"]:
             for pk, row in now["b"].items():
                 if row[1] is None:
